@@ -160,13 +160,17 @@ def run(ctx):
     # BC / RBC on closed meshes: every Buffa-Christiansen function is sum_k T[k, j] * (local RWG/SNC function k of the
     # barycentric grid); by the lemma above it is conforming iff the effective multipliers T[k, j] * m_k of the two local
     # functions of every barycentric edge are opposite
-    for mesh in (("T4", "T6") if thorough else ("T4",)):
+    for mesh in ("T4", "T6"):
         v, e, d = W.mesh(mesh)
         g = b.Grid(np.asarray(v, dtype=float), np.asarray(e))
         bg = g.barycentric_refinement
-        for kind in ("BC", "RBC"):
+        d_ = np.asarray(d, dtype="uint32")
+        gseg = b.Grid(np.asarray(v, dtype=float), np.asarray(e), d_)
+        for kind, opts in (("BC", {}), ("RBC", {}), ("BC", {"segments": [int(d_[-1])]}), ("RBC", {"segments": [int(d_[-1])]})):
+            if opts and (len(set(int(x) for x in d_)) < 2 or mesh != "T6"):
+                continue
             ABS.reset()
-            sp = b.function_space(g, kind, 0)
+            sp = b.function_space(gseg if opts else g, kind, 0, **opts)
             T = sp.dof_transformation
             T = T.toarray() if hasattr(T, "toarray") else np.asarray(T)
             l2g, mult = np.asarray(sp.local2global), np.asarray(sp.local_multipliers)
@@ -182,7 +186,7 @@ def run(ctx):
                     c = [SR.lift(T[int(l2g[el, i]), j]) * SR.lift(mult[el, i]) for el, i in zip(ne, loc)]
                     live = live or not (c[0].is_const() and c[0].c == 0)
                     cl.append(term(c[0] + c[1]) == 0)
-                ctx.prove("i/%s/%s/function%d" % (kind, mesh, j), z3.And(*(cl + [z3.BoolVal(live)])), [], family="bc_conformity", params={"mesh": mesh, "kind": kind}, abs_cons="cone", group="i-" + kind)
+                ctx.prove("i/%s/%s%s/function%d" % (kind, mesh, "/segment" if opts else "", j), z3.And(*(cl + [z3.BoolVal(live)])), [], family="bc_conformity", params={"mesh": mesh, "kind": kind, "opts": opts}, abs_cons="cone", group="i-" + kind + ("-segment" if opts else ""))
         ctx.concrete("bc_conformity/%s" % mesh, "bc_conformity", {"mesh": mesh})
     fa, na, ta = [[z3.Real("%s%d" % (nm_, d_)) for d_ in range(3)] for nm_ in ("lf", "ln", "lt")]
     ctx.prove("i/lemma/triple-product", dot(cross(na, fa), ta) == dot(fa, cross(ta, na)), [], family="conformity", params={"lemma": "(n x f).t = f.(t x n)"}, abs_cons=False, group="i-lemma-SNC")
@@ -465,15 +469,17 @@ def concrete(family, params):
         return {"gap": worst if worst > 1e-10 else 0.0, "jump": worst, "key": "conformity/%s/partial-swapped-normals" % params["kind"]}
     if family == "bc_conformity":
         v, e, d = W.mesh(params["mesh"])
-        g = b.Grid(np.asarray(v, dtype=float) * np.array([[1.0], [1.2], [0.8]]), np.asarray(e))
+        g = b.Grid(np.asarray(v, dtype=float) * np.array([[1.0], [1.2], [0.8]]), np.asarray(e), np.asarray(d, dtype="uint32"))
         bg = g.barycentric_refinement
         worst, det = 0.0, ""
-        for kind in ("BC", "RBC"):
-            sp = b.function_space(g, kind, 0)
+        opts = params.get("opts") or {}
+        for kind in (("BC", "RBC") if "kind" not in params else (params["kind"],)):
+            sp = b.function_space(g, kind, 0, **opts)
+            supp = set(int(x) for x in sp.support_elements)
             gf = b.GridFunction(sp, coefficients=rng.rand(sp.global_dof_count))
             for ed in range(bg.number_of_edges):
                 ne = [int(x) for x in bg.edge_neighbors[ed]]
-                if len(ne) != 2:
+                if len(ne) != 2 or not (ne[0] in supp and ne[1] in supp):
                     continue
                 A, Bv = [int(x) for x in bg.edges[:, ed]]
                 vals = []
@@ -486,7 +492,7 @@ def concrete(family, params):
                 gap = abs(vals[0] - vals[1])
                 if gap > worst:
                     worst, det = gap, kind
-        return {"gap": worst if worst > 1e-10 else 0.0, "jump": worst, "key": "bc_conformity/%s" % (det if worst > 1e-10 else "")}
+        return {"gap": worst if worst > 1e-10 else 0.0, "jump": worst, "key": "bc_conformity/%s%s" % (det if worst > 1e-10 else "", "/segment" if opts else "")}
     if family == "partition_of_unity" or family == "dual_nodal":
         v, e, d = W.mesh(params["mesh"])
         g = b.Grid(np.asarray(v, dtype=float), np.asarray(e))
